@@ -95,15 +95,16 @@ def explore(polys, lead_rings=0, timeout=300, max_paths=4000, int_dtype=None):
     values.set_mul_mode('exact')
     t0 = time.time()
     it = Interp()
+    V = z3.Int if int_dtype else z3.Real       # polynomial sign conditions are decided over the reals (nlsat); unsat transfers to the integers
     rings = []          # (vertex list closed, is_shell, in_slice)
     poly_offsets = []
     for k in range(lead_rings):
-        vs = [(z3.Int(f'l{k}x{i}'), z3.Int(f'l{k}y{i}')) for i in range(3)]
+        vs = [(V(f'l{k}x{i}'), V(f'l{k}y{i}')) for i in range(3)]
         rings.append((vs + [vs[0]], False, False))
     poly_offsets.append(len(rings))
     for pi, ring_sizes in enumerate(polys):
         for ri, m in enumerate(ring_sizes):
-            vs = [(z3.Int(f'g{pi}r{ri}x{i}'), z3.Int(f'g{pi}r{ri}y{i}')) for i in range(m)]
+            vs = [(V(f'g{pi}r{ri}x{i}'), V(f'g{pi}r{ri}y{i}')) for i in range(m)]
             rings.append((vs + [vs[0]] if m else [], ri == 0, True))
         poly_offsets.append(len(rings))
     ring_offsets = [0]
@@ -142,6 +143,7 @@ def explore(polys, lead_rings=0, timeout=300, max_paths=4000, int_dtype=None):
         ex.paths += 1
         conds = []
         pattern = []
+        flipped_of = {}
         for ri, (r, is_shell, in_slice) in enumerate(rings):
             a, b = ring_offsets[ri], ring_offsets[ri + 1]
             o = [(out1[j].v, out1[j + 1].v) for j in range(a, b, 2)]
@@ -158,7 +160,18 @@ def explore(polys, lead_rings=0, timeout=300, max_paths=4000, int_dtype=None):
             # idempotence: the second application leaves the ring as it is
             conds.append(z3.And(*[z3.And(o2[i][0] == o[i][0], o2[i][1] == o[i][1]) for i in range(len(r))]) if r else z3.BoolVal(True))
             pattern.append(bool(r) and not z3.is_true(z3.simplify(same)) )
+            flipped_of[ri] = pattern[-1]
         flips_seen.add(tuple(pattern))
+        # valid polygons (every hole wound opposite to its shell, non-zero areas) are flipped as a whole or not at all:
+        # together with the symmetry lemmas of the oracle this gives invariance of every intersection result
+        base_ring = lead_rings
+        for ring_sizes in polys:
+            idx = [base_ring + k for k in range(len(ring_sizes)) if len(rings[base_ring + k][0]) >= 4]
+            base_ring += len(ring_sizes)
+            if len(idx) >= 2 and len({flipped_of[i] for i in idx}) > 1:
+                a_shell = shoelace2(rings[idx[0]][0])
+                valid = z3.And(*[z3.Or(z3.And(a_shell > 0, shoelace2(rings[i][0]) < 0), z3.And(a_shell < 0, shoelace2(rings[i][0]) > 0)) for i in idx[1:]])
+                conds.append(z3.Not(valid))
         r_, m, dt, k = check_sliced(ex.solver, ex.pc, conds)
         ex.solver_s += dt
         nq += k
@@ -396,3 +409,25 @@ def replay_oriented(kind, deriv, model, specs=None, dtype='float64'):
     return bool(problems), {'kind': kind, 'derivation': deriv, 'problems': problems,
                             'elements': [None if arr[i] is None else arr[i].data.as_py() for i in range(len(arr))],
                             'oriented': [None if out[i] is None else out[i].data.as_py() for i in range(len(out))]}
+
+
+def symmetry_lemma(name, bnd=1 << 25, timeout=120, seed=0):
+    """oracle symmetry under reversal of a ring: a segment is separated from a box in either direction, and the
+    winding contribution of an edge changes sign (so wn != 0 is unchanged when ALL rings of a polygon are reversed)"""
+    from . import geom as G
+    from .framework import formula_size, z3_check
+    values.set_mul_mode('exact')
+    P = (z3.Int('px'), z3.Int('py'))
+    Q = (z3.Int('qx'), z3.Int('qy'))
+    c = (z3.Int('cx'), z3.Int('cy'))
+    box = tuple(z3.Int(n) for n in ('x0', 'y0', 'x1', 'y1'))
+    s = z3.Solver()
+    for v in [*P, *Q, *c, *box]:
+        s.add(v >= -bnd, v <= bnd)
+    s.add(box[0] < box[2], box[1] < box[3])
+    if name == 'Dsym':
+        s.add(G.Dsep(P, Q, box) != G.Dsep(Q, P, box))
+    else:
+        s.add(G.wn_up_edge(P, Q, c) != -G.wn_up_edge(Q, P, c))
+    st, m, dt = z3_check(s, timeout, seed)
+    return {'status': st, 'solver_s': round(dt, 3), 'formula_size': formula_size(s), 'encoded': {}}
